@@ -396,6 +396,25 @@ Fixpoint sr_eval (t : srty) (a b c : sval) (e : ex) : option sval :=
   | XMul x y => obind (sr_eval t a b c x) (fun u => obind (sr_eval t a b c y) (fun v => sr_mul t u v))
   end.
 
+(* release profile (no overflow checks): the unchecked `a + b` of Cost::mul wraps modulo
+   2^32; the checked_add/checked_mul of Multiplicity still panic *)
+Definition sr_mul_rel (t : srty) (x y : sval) : option sval :=
+  match t, x, y with
+  | SCost, VN a, VN b => Some (VN ((a + b) mod u32_max1))
+  | _, _, _ => sr_mul t x y
+  end.
+
+Fixpoint sr_eval_rel (t : srty) (a b c : sval) (e : ex) : option sval :=
+  match e with
+  | XA => sr_new t a
+  | XB => sr_new t b
+  | XC => sr_new t c
+  | XZero => obind (sr_new t a) (fun _ => sr_new t (sr_zero t))
+  | XOne => obind (sr_new t a) (fun _ => sr_new t (sr_one t))
+  | XAdd x y => obind (sr_eval_rel t a b c x) (fun u => obind (sr_eval_rel t a b c y) (fun v => sr_add t u v))
+  | XMul x y => obind (sr_eval_rel t a b c x) (fun u => obind (sr_eval_rel t a b c y) (fun v => sr_mul_rel t u v))
+  end.
+
 (* the expressions evaluated by an `sr` case (same order as harness/h_algebra sr_exprs) *)
 Definition sr_exprs : list ex :=
   [ XAdd XA XB; XAdd XB XA; XMul XA XB; XMul XB XA;
@@ -488,6 +507,7 @@ Inductive acase :=
 | CProps (items : list N) (f : tbl) (e : N) (b : list N) (z : N)
 | CPow (items : list N) (arity : nat)
 | CSr (t : srty) (a b c : sval)
+| CSrRel (t : srty) (a b c : sval)      (* harness built with the release profile *)
 | CSrNew (t : srty) (a : sval).
 
 Inductive aout :=
@@ -535,6 +555,7 @@ Definition model_run (c : acase) : aout :=
   | CProps i f e b z => OProps (get_single_function_properties E i (top f) e (vop b) z)
   | CPow i n => pow_out i n
   | CSr t a b c => OSr (map (sr_eval t a b c) sr_exprs)
+  | CSrRel t a b c => OSr (map (sr_eval_rel t a b c) sr_exprs)
   | CSrNew t a => ONew (sr_new t a)
   end.
 
@@ -613,14 +634,14 @@ Definition C09_holds_b (c : acase) (o : aout) : bool :=
       (match i with [] => true | _ :: _ => forallb (fun t => mem_b (list_eqb E) t ts) (all_tuples n i) end) &&
       Nat.eqb (length ts) (match i with [] => 0 | _ :: _ => length i ^ n end) &&
       list_eqb E ls (countdown (length ts)) && after
-  | CSr t a _ _, OSr v => sr_laws_b (sr_new t a) v
+  | CSr t a _ _, OSr v | CSrRel t a _ _, OSr v => sr_laws_b (sr_new t a) v
   | CSrNew t a, ONew v =>
       match t, a, v with
       | (SConfidence | SFuzzy), VF f, Some (VF g) => in01 f && float_bits_eqb f g
       | (SConfidence | SFuzzy), VF f, None => negb (in01 f)
       | _, _, _ => osval_eqb v (sr_new t a)
       end
-  | (CProps _ _ _ _ _ | CPow _ _ | CSr _ _ _ _ | CSrNew _ _), _ => false
+  | (CProps _ _ _ _ _ | CPow _ _ | CSr _ _ _ _ | CSrRel _ _ _ _ | CSrNew _ _), _ => false
   | _, ORes r => Bool.eqb (is_ok r) (law_b c)
   | _, _ => false
   end.
